@@ -347,7 +347,13 @@ func (b *BaseType) UnmarshalJSON(data []byte) error {
 		case []interface{}:
 			// it's an OvsSet
 			oSet := bt.Enum.([]interface{})
-			innerSet := oSet[1].([]interface{})
+			if len(oSet) != 2 {
+				return fmt.Errorf("expected a 2 element json array in enum. there are %d elements", len(oSet))
+			}
+			innerSet, ok := oSet[1].([]interface{})
+			if !ok {
+				return fmt.Errorf("expected enum %v to be a valid <set>", bt.Enum)
+			}
 			b.Enum = make([]interface{}, len(innerSet))
 			copy(b.Enum, innerSet)
 		default:
